@@ -387,18 +387,22 @@ impl<const H: usize> Writer<H> {
             let original_size = data.len() as u32;
             let compressed = zstd::bulk::compress(data, ZSTD_COMPRESSION_LEVEL)?;
 
-            let mut final_data = Vec::with_capacity(4 + compressed.len());
-            final_data.extend_from_slice(&original_size.to_le_bytes());
-            final_data.extend_from_slice(&compressed);
+            // Keep the compressed form only when it is smaller: incompressible data would
+            // otherwise grow beyond the (uncompressed) size callers reserve space for
+            if 4 + compressed.len() < data.len() {
+                let mut final_data = Vec::with_capacity(4 + compressed.len());
+                final_data.extend_from_slice(&original_size.to_le_bytes());
+                final_data.extend_from_slice(&compressed);
 
-            let total_payload_len = H + final_data.len();
-            let length_with_flag = (total_payload_len as u32) | COMPRESSION_FLAG;
+                let total_payload_len = H + final_data.len();
+                let length_with_flag = (total_payload_len as u32) | COMPRESSION_FLAG;
 
-            Ok((Cow::Owned(final_data), length_with_flag))
-        } else {
-            let total_payload_len = H + data.len();
-            let length_with_flag = total_payload_len as u32;
-            Ok((Cow::Borrowed(data), length_with_flag))
+                return Ok((Cow::Owned(final_data), length_with_flag));
+            }
         }
+
+        let total_payload_len = H + data.len();
+        let length_with_flag = total_payload_len as u32;
+        Ok((Cow::Borrowed(data), length_with_flag))
     }
 }
